@@ -685,8 +685,15 @@ func jsHoistByFold(c *Ctx, ufn *ssa.Function) bool {
 		}
 		f := forms[fk]
 		if _, errNil := res[0].(cpNil); !errNil {
-			// a failure; for the three forms that is only acceptable when it is the JSON library's error handed on
-			continue
+			// an error value: a made-up one (fmt.Errorf) or one found non-nil on the path is a refusal; the result of
+			// a call handed back untested may be nil, so it counts as a way of accepting
+			u, isU := res[0].(cpUnk)
+			if !isU {
+				continue
+			}
+			if t, tested := e.decided["cmp:"+u.ID+"==nil"]; tested && !t {
+				continue
+			}
 		}
 		if f.seen && f.why != "" {
 			continue
